@@ -318,6 +318,63 @@ pub mod unit_nuts {
         //@|     forall |c: int| 0 <= c < __vx_k1 ==> nuts_run_post::<B, GTarget>(#[trigger] old(self).chains@[c], self.chains@[c], v2(__vx_out1@[c]), n_collect as int, n_discard as int),
         //@|     forall |c: int| 0 <= c < __vx_k1 ==> tdim2(#[trigger] __vx_out1@[c]) == (n_collect as int, v1(old(self).chains@[0].position).len() as int),
         //@end
+
+        /// Progress mode of the multi-chain NUTS sampler.  The reporter thread's body is dropped and the scoped chain threads are
+        /// read as the in-order map they compute (rule R-threads, ASSUMED like R-par): decides what is returned, not termination.
+        pub fn run_progress(&mut self, n_collect: usize, n_discard: usize) -> (res: Result<(Tensor<B, 3>, RunStats), BoxDynError>)
+            requires n_collect >= 1, old(self).chains@.len() >= 1,
+                forall |c: int| 0 <= c < old(self).chains@.len() ==> (#[trigger] old(self).chains@[c]).m + old(self).chains@[c].t_0 + n_collect + n_discard < usize::MAX
+                    && v1(old(self).chains@[c].position).len() == v1(old(self).chains@[0].position).len(),
+            ensures
+                res is Ok,                                                                                                               // [C10.nuts_run_progress_succeeds_for_every_scalar_and_backend_float_type]
+                final(self).chains@.len() == old(self).chains@.len(),
+                v3(res->Ok_0.0).len() == old(self).chains@.len(),
+                forall |c: int| 0 <= c < old(self).chains@.len() ==>
+                    nuts_progress_post::<B, GTarget>(#[trigger] old(self).chains@[c], final(self).chains@[c], v3(res->Ok_0.0)[c], n_collect as int, n_discard as int),   // [C10.nuts_run_progress_row_c_is_chain_c_trajectory_shifted_by_one_draw]
+                res->Ok_0.1 == runstats_of_view((key32_if(tkey(res->Ok_0.0), B::float_is_f32()), tdim3(res->Ok_0.0))),                  // [C10.nuts_run_progress_stats_are_a_function_of_the_returned_sample]
+        //@body id=nuts_run_progress file=src/nuts.rs impl_self=NUTS name=run_progress props=C10
+        //@sig fn run_progress (& mut self , n_collect : usize , n_discard : usize ,) -> Result < (Tensor < B , 3 > , RunStats) , Box < dyn Error > >
+        //@rules R-threads R-foreach R-wild R-dynerr
+        //@outtype __vx_out1 Vec<Tensor<B, 2>>
+        //@anchor g0 scope=fn pos=after match="^let chains ="
+        //@| let ghost nc = chains@.len() as int;
+        //@| let ghost ch0 = old(self).chains@;
+        //@loop 1 iter=it
+        //@| invariant
+        //@|     it.iter.end == nc, chains@.len() == nc, chains@ == ch0, txs@.len() == __vx_i1, rxs@.len() == __vx_i1,
+        //@loop 2 iter=it2
+        //@| invariant
+        //@|     it2.iter.end == nc, chains@.len() == nc, nc == ch0.len(), nc >= 1, n_collect >= 1,
+        //@|     __vx_q1@.len() == nc - __vx_k1, __vx_out1@.len() == __vx_k1,
+        //@|     forall |c: int| __vx_k1 <= c < nc ==> (#[trigger] chains@[c]) == ch0[c],
+        //@|     forall |c: int| 0 <= c < nc ==> (#[trigger] ch0[c]).m + ch0[c].t_0 + n_collect + n_discard < usize::MAX && v1(ch0[c].position).len() == v1(ch0[0].position).len(),
+        //@|     forall |c: int| 0 <= c < __vx_k1 ==> nuts_progress_post::<B, GTarget>(#[trigger] ch0[c], chains@[c], v2(__vx_out1@[c]), n_collect as int, n_discard as int),
+        //@|     forall |c: int| 0 <= c < __vx_k1 ==> tdim2(#[trigger] __vx_out1@[c]) == (n_collect as int, v1(ch0[0].position).len() as int),
+        //@end
+    }
+    /// the f32 rendering of a tensor's content: itself on an f32 backend
+    pub open spec fn key32_if(k: TKey, is32: bool) -> TKey { if is32 { k } else { key32(k) } }
+    #[verifier::external_body]
+    pub struct RunStats { _p: u8 }
+    #[verifier::external_body]
+    #[verifier::accept_recursive_types(X)]
+    pub struct ArrayView3<'a, X> { _t: core::marker::PhantomData<&'a X> }
+    pub uninterp spec fn view3_key<'a, X>(v: ArrayView3<'a, X>) -> (TKey, (int, int, int));
+    pub uninterp spec fn runstats_of_view(k: (TKey, (int, int, int))) -> RunStats;
+    impl<'a, X> ArrayView3<'a, X> {
+        /// `ArrayView3::from_shape(dims, slice)`: Err iff the slice is too short
+        #[verifier::external_body]
+        pub fn from_shape(dims: [usize; 3], s: &'a [X]) -> (r: Result<ArrayView3<'a, X>, ShapeErrorV>)
+            ensures (r is Ok) == (s@.len() >= dims@[0] * dims@[1] * dims@[2]),
+                r is Ok ==> view3_key(r->Ok_0) == (slice_key(s@), (dims@[0] as int, dims@[1] as int, dims@[2] as int))
+        { unimplemented!() }
+    }
+    pub struct ShapeErrorV;
+    impl core::fmt::Debug for ShapeErrorV { #[verifier::external_body] fn fmt(&self, f: &mut core::fmt::Formatter<'_>) -> core::fmt::Result { Ok(()) } }
+    impl RunStats {
+        /// `RunStats::from(view)`: a function of the view (its parts are under contract in unit stats)
+        #[verifier::external_body]
+        pub fn from<'a>(v: ArrayView3<'a, f32>) -> (r: RunStats) ensures r == runstats_of_view(view3_key(v)) { unimplemented!() }
     }
 
     /// the tree built at depth j has at most 2^j leaves
